@@ -157,6 +157,7 @@ func init() {
 		Kind   string   `json:"kind"` // Logger | Logger+layout | AsyncLogger | AsyncLogger+layout
 		Logger string   `json:"logger_level"`
 		Refs   []string `json:"ref_levels"`
+		Same   bool     `json:"last_ref_names_first_appender,omitempty"` // the LAST reference names the appender of the first one again (one appender, two disjoint ranges)
 	}
 	lows := []string{"DEBUG", "INFO", "NOTICE", "WARN", "ERROR"}
 	var shapes []string
@@ -186,14 +187,19 @@ func init() {
 		}
 		var rr []refRange
 		for i, r := range c.Refs {
-			conf[fmt.Sprintf("appender.r%d.type", i)] = "Rec"
+			target := fmt.Sprintf("r%d", i)
+			if c.Same && i == len(c.Refs)-1 && i > 0 {
+				target = "r0"
+			} else {
+				conf[fmt.Sprintf("appender.r%d.type", i)] = "Rec"
+			}
 			if len(c.Refs) == 1 {
 				conf["logger.root.appenderRef.ref"] = "r0"
 				if r != "" {
 					conf["logger.root.appenderRef.level"] = r
 				}
 			} else {
-				conf[fmt.Sprintf("logger.root.appenderRef[%d].ref", i)] = fmt.Sprintf("r%d", i)
+				conf[fmt.Sprintf("logger.root.appenderRef[%d].ref", i)] = target
 				if r != "" {
 					conf[fmt.Sprintf("logger.root.appenderRef[%d].level", i)] = r
 				}
@@ -201,6 +207,9 @@ func init() {
 			rr = append(rr, refParseRange(r))
 		}
 		key := fmt.Sprintf("%s level=%q refs=%q", c.Kind, c.Logger, c.Refs)
+		if c.Same {
+			key += " (the last reference names appender r0 again)"
+		}
 		err, pn := safeRefresh(conf)
 		if pn != nil || err != nil {
 			return "refresh-failed", []Violation{{Clause: "valid-config-rejected", Key: key, Detail: fmt.Sprintf("Refresh(%s): err=%v panic=%v", confString(conf), err, pn)}}, 1
@@ -219,6 +228,9 @@ func init() {
 			v = append(v, Violation{Clause: "destroy-panicked", Key: key, Detail: fmt.Sprint(pn)})
 		}
 		for i := range c.Refs {
+			if c.Same && i == len(c.Refs)-1 && i > 0 {
+				continue // counted with r0
+			}
 			got := map[string]int{}
 			for _, it := range recStore[fmt.Sprintf("r%d", i)] {
 				id := it.ID
@@ -236,6 +248,9 @@ func init() {
 				want := 0
 				if lr.has(l.code) && eff[i].has(l.code) {
 					want = 1
+				}
+				if c.Same && i == 0 && len(c.Refs) > 1 && lr.has(l.code) && eff[len(c.Refs)-1].has(l.code) {
+					want++ // the appender's second reference (the enumeration keeps the two ranges disjoint)
 				}
 				if g := got["ev-"+l.name]; g != want {
 					v = append(v, Violation{Clause: "delivery-count", Key: key,
@@ -278,6 +293,39 @@ func init() {
 				}
 			}
 			rec(nil)
+		},
+		chainCheck)
+
+	// ---- (b'') one appender referenced twice with disjoint ranges: it gets exactly the events of its two ranges ----
+	definePart("C01", "c01/same-appender-twice", "qt", "every sequence of 2-3 references over 9 level shapes whose LAST reference names the first one's appender again, the two effective ranges disjoint; sync and async loggers x 15 event levels",
+		func(tier string, yield func(chainCase)) {
+			sh := []string{"DEBUG~INFO", "INFO~WARN", "WARN~ERROR", "ERROR", "DEBUG", "WARN", "INFO~ERROR", "NOTICE~WARN", "PANIC"}
+			for _, a := range sh {
+				for _, b := range sh {
+					for _, k := range []string{"Logger", "AsyncLogger"} {
+						for _, n := range []int{2, 3} {
+							for _, mid := range sh {
+								r := []string{a, b}
+								if n == 3 {
+									r = []string{a, mid, b}
+								} else if mid != sh[0] {
+									continue
+								}
+								var rr []refRange
+								for _, x := range r {
+									rr = append(rr, refParseRange(x))
+								}
+								eff := refEffective(rr)
+								first, last := eff[0], eff[len(eff)-1]
+								if first.min < last.max && last.min < first.max {
+									continue // overlapping: "exactly once to each appender" does not say what a doubly enabled appender gets
+								}
+								yield(chainCase{Kind: k, Logger: "", Refs: r, Same: true})
+							}
+						}
+					}
+				}
+			}
 		},
 		chainCheck)
 
